@@ -139,10 +139,10 @@ def nontrivial(case, impl):
 
 def run(ctx):
     ctx.equal = equal
-    obl = C.coq_obligations(ctx.pid, ["Extract/ExtractC03.vo"], more_props=["C01Smith"])
+    obl = C.coq_obligations(ctx.pid, ["Extract/ExtractC03.vo"], more_props=["C01Smith", "C03Uct"])
     extra = {}
     if ctx.thorough:
-        extra.update(C.coqchk(ctx.pid, more_props=["C01Smith"]))
+        extra.update(C.coqchk(ctx.pid, more_props=["C01Smith", "C03Uct"]))
     corr = C.correspondence(ctx, "c03", nontrivial)
     ev = []
     nrel = 0
